@@ -132,8 +132,8 @@ pub fn run_case(m: Manner, c: Cmd, w: Wrap, dir: &PathBuf) -> CaseResult {
 		tokio::time::sleep(Duration::from_millis(50)).await;
 		let tq = Instant::now();
 		wx.send_event(Event::default(), Priority::Urgent).await.map_err(|e| e.to_string())?;
-		match tokio::time::timeout(Duration::from_secs(8), main).await {
-			Err(_) => Ok((tq.elapsed().as_millis(), "main task did not finish within 8 s of the quit request".to_string())),
+		match tokio::time::timeout(Duration::from_secs(15), main).await {
+			Err(_) => Ok((tq.elapsed().as_millis(), "main task did not finish within 15 s of the quit request".to_string())),
 			Ok(Ok(Ok(()))) => Ok((tq.elapsed().as_millis(), String::new())),
 			Ok(other) => Ok((tq.elapsed().as_millis(), format!("main task ended with {other:?}"))),
 		}
@@ -144,10 +144,12 @@ pub fn run_case(m: Manner, c: Cmd, w: Wrap, dir: &PathBuf) -> CaseResult {
 		Err(e) => return CaseResult { name, ok: false, detail: format!("machinery: {e}"), main_ms: 0 },
 	};
 	// the deadline for main: prompt for abort, grace + margin for graceful
+	// generous margins: the machine may be busy; the simulated part of C08 is what checks
+	// the deadlines tick-exactly
 	let limit = match m {
-		Manner::Abort => 1500,
-		Manner::Graceful0 => 1500,
-		Manner::Graceful300 => 300 + 1500,
+		Manner::Abort => 5000,
+		Manner::Graceful0 => 5000,
+		Manner::Graceful300 => 300 + 5000,
 	};
 	if problem.is_empty() && main_ms > limit {
 		problem = format!("main task took {main_ms} ms after the quit request (limit {limit} ms)");
@@ -165,7 +167,7 @@ pub fn run_case(m: Manner, c: Cmd, w: Wrap, dir: &PathBuf) -> CaseResult {
 	let mut alive: Vec<(i32, char)> = vec![];
 	loop {
 		alive = pids.iter().filter_map(|p| pid_state(*p).filter(|s| *s != 'Z' && *s != 'X').map(|s| (*p, s))).collect();
-		if alive.is_empty() || t0.elapsed() > Duration::from_secs(2) {
+		if alive.is_empty() || t0.elapsed() > Duration::from_secs(5) {
 			break;
 		}
 		std::thread::sleep(Duration::from_millis(50));
@@ -180,7 +182,7 @@ pub fn run_case(m: Manner, c: Cmd, w: Wrap, dir: &PathBuf) -> CaseResult {
 	}
 	let _ = std::fs::remove_file(&pidfile);
 	if !alive.is_empty() && problem.is_empty() {
-		problem = format!("processes {alive:?} (of {pids:?}) still alive 2 s after the main task returned");
+		problem = format!("processes {alive:?} (of {pids:?}) still alive 5 s after the main task returned");
 	}
 	CaseResult { name, ok: problem.is_empty(), detail: problem, main_ms }
 }
